@@ -129,6 +129,9 @@ type Solver struct {
 	ByResult  [3]int
 	Log       io.Writer
 	timeoutMs int
+	SlowHook  func(d time.Duration, res Result)
+	Hist      [][]string // lines sent per live scope (only when KeepHist)
+	KeepHist  bool
 }
 
 // NewSolver starts a solver. kind: "z3-new", "z3", "cvc5".
@@ -161,11 +164,30 @@ func NewSolver(kind string, timeoutMs int) (*Solver, error) {
 	} else {
 		s.send("(set-option :produce-models true)")
 		s.send(fmt.Sprintf("(set-option :timeout %d)", timeoutMs))
+		if kind == "z3-new" {
+			// z3's incremental core is slow on bit-vector arithmetic; after a short slice fall
+			// back to the tactic-based solver for the query at hand
+			s.send("(set-option :combined_solver.solver2_timeout 40)")
+		}
 	}
 	return s, nil
 }
 
 func (s *Solver) send(line string) {
+	if s.KeepHist {
+		if len(s.Hist) == 0 {
+			s.Hist = [][]string{nil}
+		}
+		switch {
+		case line == "(push 1)":
+			s.Hist = append(s.Hist, nil)
+		case line == "(pop 1)":
+			s.Hist = s.Hist[:len(s.Hist)-1]
+		case strings.HasPrefix(line, "(check-sat") || strings.HasPrefix(line, "(echo") || strings.HasPrefix(line, "(get-value"):
+		default:
+			s.Hist[len(s.Hist)-1] = append(s.Hist[len(s.Hist)-1], line)
+		}
+	}
 	if s.Log != nil {
 		fmt.Fprintln(s.Log, line)
 	}
@@ -315,6 +337,9 @@ func (s *Solver) Check() (Result, error) {
 	}
 	s.Queries++
 	s.SolveTime += time.Since(t0)
+	if s.SlowHook != nil && time.Since(t0) > 2*time.Second {
+		s.SlowHook(time.Since(t0), res)
+	}
 	if errLine != "" {
 		s.ByResult[Unknown]++
 		return Unknown, fmt.Errorf("solver error: %s", errLine)
